@@ -28,6 +28,7 @@ func cmdMatrix(args []string) {
 	var obls []*Obligation
 	obls = append(obls, p.groundObligations()...)
 	obls = append(obls, p.generate("")...)
+	p.inheritTags(obls)
 	obls = append(obls, p.disciplineObligations()...)
 	obls = append(obls, p.toolObligations(opts)...)
 	work := filepath.Join(verifDir, "work", "matrix"+os.Getenv("VERIF_WORK_SUFFIX"))
